@@ -3,6 +3,7 @@
 //	harness gen-tables <dir>            read finite tables out of the implementation -> <dir>/Tables.v, Lev.v
 //	harness gen-flags  <file>           translate formats/sam/flag.go -> FlagGen.v
 //	harness gen-src <repo> <out.v>      translate selected pure functions and constants -> SrcGen.v
+//	harness gen-imp <repo> <out.v>      translate whole imperative function bodies -> ImpGen.v
 //	harness run <prop> <tier> <seed> <outdir>   generate cases, run implementation + direct oracle
 //	harness replay <kind> <val>         run one recorded case on the implementation
 //
@@ -45,6 +46,11 @@ func main() {
 			usage()
 		}
 		genSrc(os.Args[2], os.Args[3])
+	case "gen-imp":
+		if len(os.Args) != 4 {
+			usage()
+		}
+		genImp(os.Args[2], os.Args[3])
 	case "run":
 		if len(os.Args) != 6 {
 			usage()
@@ -127,6 +133,6 @@ func argOrFile(a string) string {
 }
 
 func usage() {
-	fmt.Fprintln(os.Stderr, "usage: harness gen-tables <dir> | gen-flags <flag.go> <out.v> | gen-src <repo> <out.v> | run <prop> <tier> <seed> <outdir> | replay <kind> <val> | kinds")
+	fmt.Fprintln(os.Stderr, "usage: harness gen-tables <dir> | gen-flags <flag.go> <out.v> | gen-src <repo> <out.v> | gen-imp <repo> <out.v> | run <prop> <tier> <seed> <outdir> | replay <kind> <val> | kinds")
 	os.Exit(2)
 }
